@@ -191,3 +191,20 @@ Fixpoint find_slice (start : Z) (es : list Z) (k : Z) (i : nat) : option nat :=
   | [] => None
   | e :: t => if (start <=? k) && (k <? start + e) then Some i else find_slice (start + e) t k (S i)
   end.
+
+(* ---------- transposed convolution as a convolution over the zero-inserted input ---------- *)
+(* one axis. Reference (TFLite transpose_conv): input sample i and tap k contribute in i * w k to output i * s - pt + k.
+   `ind c v` = v if c else 0 *)
+Definition ind (c : bool) (v : Z) : Z := if c then v else 0.
+Definition tconv_ref (n K : nat) (s pt : Z) (x : nat -> Z) (w : nat -> Z) (o : Z) : Z :=
+  zsum (map (fun k => zsum (map (fun i => ind (Z.of_nat i * s - pt + Z.of_nat k =? o) (x i * w k)) (seq 0 n))) (seq 0 K)).
+(* the hardware's view: zeros inserted between the samples (and behind the last one), zeros outside *)
+Definition upsampled (n : nat) (s : Z) (x : nat -> Z) (j : Z) : Z :=
+  if (0 <=? j) && (j <? Z.of_nat n * s) && (j mod s =? 0) then x (Z.to_nat (j / s)) else 0.
+(* convolution with stride 1, the flipped kernel and t zeros in front *)
+Definition tconv_hw (n K : nat) (s t : Z) (x : nat -> Z) (w : nat -> Z) (o : Z) : Z :=
+  zsum (map (fun k' => w (K - 1 - k')%nat * upsampled n s x (o - t + Z.of_nat k')) (seq 0 K)).
+(* the reference's leading padding for `on` output samples, and what the check validates on Vela's (top, bottom) *)
+Definition tconv_ref_pad (n K s on : Z) : Z := Z.max ((n - 1) * s + K - on) 0 / 2.
+Definition tconv_pad_ok (n K s on top bottom : Z) : bool :=
+  (top =? K - 1 - tconv_ref_pad n K s on) && (Z.max (on - n * s - top + K - 1) 0 <=? bottom).
